@@ -132,7 +132,7 @@ func runC12(c *wk.Ctx) {
 	c.Floor("probe_evaluations", 20000)
 	c.Floor("history_calls", 5000)
 	c.Floor("results_scrambled", 500)
-	n := c.N(6000, 150000)
+	n := c.N(6000, 600000)
 	c.Cases(n, func(idx int64, r *wk.Rand) {
 		cfg := gen.Full()
 		cfg.GoodDefaults = true
